@@ -12,7 +12,7 @@ meta = {
     'confirmed': {
         'existing_suite_with_change': '2129 passed, 127 deselected, 8 errors (pinned command, run in the scratch worktree)',
         'demo_exit_with_change': 1, 'demo_exit_without_change': 0,
-        'how': f'tools/eval_seed.sh {sid} ... (git stash / stash pop around the demonstration)',
+        'how': f'tools/eval_seed.sh {sid} ... (change removed with git checkout -- cirbo and re-applied from patch.diff around the demonstration)',
     },
     'checks_that_catch_it': [x for x in det.split(',') if x and x != '-'],
     'note': note,
